@@ -35,6 +35,7 @@ Next ==
             \/ "UT" \in Alphabet /\ Do(Op("UT", h, <<>>))
             \/ "Transpose" \in Alphabet /\ Do(Op("Transpose", h, <<>>))
             \/ "Materialize" \in Alphabet /\ Do(Op("Materialize", h, <<>>))
+            \/ "ShallowReturn" \in Alphabet /\ LastK # "ShallowReturn" /\ Do(Op("ShallowReturn", h, <<>>))
             \* the full view (all-nil slice) of the tensor as it stands: the program continues on the view
             \/ "FullView" \in Alphabet /\ r >= 1 /\ Do(Op("Slice", h, <<SlNil>>))
             \/ "SafeT" \in Alphabet /\ \E p \in PermsFor(r) : Do(Op("SafeT", h, p))
